@@ -1,5 +1,6 @@
 import ast
 import io
+import keyword
 import token
 import tokenize
 from collections import namedtuple
@@ -40,13 +41,40 @@ def normalize_strings(token_sequence):
 def skip_trailing_comma(token_sequence):
     token_sequence = list(token_sequence)
 
-    for index, token in enumerate(token_sequence):
+    def is_tuple_comma(index):
+        """The comma of a tuple with one element `(1,)` is no trailing comma."""
+        depth = 0
+        for i in range(index - 1, -1, -1):
+            s = token_sequence[i].string
+            if s in (")", "]", "}"):
+                depth += 1
+            elif s in ("(", "[", "{"):
+                if depth != 0:
+                    depth -= 1
+                    continue
+                if s != "(":
+                    return False
+                if i > 0:
+                    before = token_sequence[i - 1]
+                    if before.string in (")", "]") or (
+                        before.type == token.NAME
+                        and not keyword.iskeyword(before.string)
+                    ):
+                        # f(1,)
+                        return False
+                return True
+            elif s == "," and depth == 0:
+                return False
+        return False
+
+    for index, tok in enumerate(token_sequence):
         if index + 1 < len(token_sequence):
             next_token = token_sequence[index + 1]
 
-            if token.string == "," and next_token.string in ("]", ")", "}"):
-                continue
-        yield token
+            if tok.string == "," and next_token.string in ("]", ")", "}"):
+                if not (next_token.string == ")" and is_tuple_comma(index)):
+                    continue
+        yield tok
 
 
 def normalize(token_sequence):
